@@ -207,6 +207,7 @@ let parse_edit (toks : string list) : z edit option = match toks with
   | ["LTRUNC"; p; n] -> Some (ELeafTrunc (nat_of_int (ios p), nat_of_int (ios n)))
   | ["BTRUNC"; p; n] -> Some (EBranchTrunc (nat_of_int (ios p), nat_of_int (ios n)))
   | ["BCPOP"; p] -> Some (EBranchPopChild (nat_of_int (ios p)))
+  | ["BPUSH"; p; z; id] -> Some (EBranchPush (nat_of_int (ios p), key_of (ios z) (ios id)))
   | ["BCDUP"; p] -> Some (EBranchDupChild (nat_of_int (ios p)))
   | ["BREF"; p; i; id] -> Some (EBranchRef (nat_of_int (ios p), nat_of_int (ios i), n_of_int (ios id)))
   | ["ROOT"; k; id] -> Some (ERoot ((k = "L"), n_of_int (ios id)))
